@@ -51,6 +51,9 @@ def concat_ops(e):
     return [e]
 
 
+_REPO = [None]
+
+
 def pattern_operand_ok(e):
     """(ok, why) for one operand of a chunk inserted as a pattern"""
     if isinstance(e, ast.Constant) and isinstance(e.value, (bytes, str)):
@@ -83,6 +86,17 @@ def pattern_operand_ok(e):
                 return True, 'join of safe parts'
             if isinstance(g, ast.Name) and '@phi' in g.id:
                 return None, 'joined sequence is loop-carried'
+        # a method of the don't-care placeholder (class Any) that hands out its pattern text
+        if isinstance(f, ast.Attribute) and not e.args and not e.keywords and _REPO[0] is not None and _REPO[0].has_cls('Any'):
+            m_ = _REPO[0].cls('Any').methods.get(f.attr)
+            if m_ is not None and sum(1 for c_ in _REPO[0].classes.values() if f.attr in c_.methods) == 1:
+                rets = [r for r in ast.walk(m_.node) if isinstance(r, ast.Return) and r.value is not None]
+                verdicts = [pattern_operand_ok(r.value) for r in rets]
+                if verdicts and all(v[0] for v in verdicts):
+                    return True, 'Any.%s(): %s' % (f.attr, verdicts[0][1])
+                if any(v[0] is False for v in verdicts):
+                    return [v for v in verdicts if v[0] is False][0]
+                return None, 'cannot see what Any.%s() returns' % f.attr
         raw_bytes = (isinstance(f, ast.Name) and f.id in ('bytes', 'bytearray', 'chr', 'getattr')) or \
                     (isinstance(f, ast.Attribute) and f.attr in ('pack', 'to_bytes', 'tobytes', 'group'))
         return (False if (raw_bytes or _has_value_read(e)) else None), 'result of %s (raw bytes) is placed in the pattern unescaped' % (nm or unparse(f))
@@ -345,6 +359,27 @@ def check_user_callables(ctx, repo):
     ctx.unit('user_callables_on_patterns', n)
 
 
+def _unconstrained(e):
+    """True: the expression is the don't-care body pattern (custom pattern or .*); None: cannot tell."""
+    t = canon(e)
+    if '.*' in t or 'regexp.pattern' in t:
+        return True
+    if isinstance(e, ast.Call) and isinstance(e.func, ast.Attribute) and not e.args and _REPO[0] is not None and _REPO[0].has_cls('Any'):
+        m_ = _REPO[0].cls('Any').methods.get(e.func.attr)
+        if m_ is not None and sum(1 for c_ in _REPO[0].classes.values() if e.func.attr in c_.methods) == 1:
+            rets = [r.value for r in ast.walk(m_.node) if isinstance(r, ast.Return) and r.value is not None]
+            parts = []
+            for r in rets:
+                parts.extend([r.body, r.orelse] if isinstance(r, ast.IfExp) else [r])
+            vs = [_unconstrained(x) for x in parts]
+            if vs and all(v is True for v in vs):
+                return True
+            return None if any(v is None for v in vs) or not vs else False
+        if m_ is None and e.func.attr not in ('encode', 'decode', 'join', 'format'):
+            return None
+    return False
+
+
 def check_widths(ctx, repo):
     """(d) width agreement"""
     rule = 'R12-width-agreement'
@@ -406,8 +441,11 @@ def check_widths(ctx, repo):
                         ctx.violation(rule, dt, st, 'the width of the Any pattern is not the declared size (%s...)' % want, e.lineno, clause='d')
                 else:
                     ok, why = pattern_operand_ok(e.call.args[0])
-                    if '.*' in t or 'regexp.pattern' in t:
+                    un = _unconstrained(e.call.args[0])
+                    if un:
                         ctx.holds(rule, dt, st, 'unknown size: unconstrained (custom or .*) pattern', e.lineno, clause='d')
+                    elif un is None:
+                        ctx.undecided(rule, dt, st, 'cannot see which pattern the called method hands out', e.lineno, clause='d')
                     else:
                         ctx.violation(rule, dt, st, 'unknown size must render as an unconstrained pattern', e.lineno, clause='d')
             else:
@@ -416,7 +454,7 @@ def check_widths(ctx, repo):
                 tail = ops[-1]
                 tt = canon(tail)
                 if ('re.escape(self.until_marker)' in tt and 'self.until_marker.pattern' in tt) or tt in ('re.escape(self.until_marker)', 'self.until_marker.pattern'):
-                    if len(ops) >= 2 and ('.*' in canon(ops[0]) or 'regexp.pattern' in canon(ops[0])):
+                    if len(ops) >= 2 and _unconstrained(ops[0]):
                         ctx.holds(rule, dt, st, 'body pattern followed by the escaped marker / the marker pattern', e.lineno, clause='d')
                     else:
                         ctx.violation(rule, dt, st, 'the delimited Any pattern has no body part before the delimiter', e.lineno, clause='d')
@@ -512,7 +550,13 @@ def check_assembly(ctx, repo):
                 if e.kind == 'loop' and not done:
                     it = canon(e.sub['iter'])
                     if not it.startswith('sorted('):
-                        ctx.violation(rule, f_, 'for ... in %s' % it, 'chunks are not assembled in position order', e.lineno, clause='e')
+                        plain = it in ('self.regexp_by_position.items()', 'self.regexp_by_position', 'self.regexp_by_position.keys()', 'self.fragments', 'self.fragments.items()')
+                        if it == 'self.begin_of_fragments':
+                            ctx.violation(rule, f_, 'for ... in %s' % it, 'the index of begins holds a position once per insert: a position where an empty chunk was replaced is visited twice and its pattern is emitted twice', e.lineno, clause='e', witness=True)
+                        elif plain:
+                            ctx.violation(rule, f_, 'for ... in %s' % it, 'chunks are not assembled in position order', e.lineno, clause='e', witness=True)
+                        else:
+                            ctx.undecided(rule, f_, 'for ... in %s' % it, 'cannot see that the chunks are assembled in position order', e.lineno, clause='e')
                     else:
                         ctx.holds(rule, f_, 'for ... in %s' % it, 'chunks assembled in position order', e.lineno, clause='e')
                     done = True
@@ -579,6 +623,27 @@ def check_prefix_and_match(ctx, repo):
             ctx.violation(rule, fil, 'filter', 'candidates that fail to parse abort the filter', fil.node.lineno, clause='b')
 
 
+def _expand_properties(ci, node):
+    """a copy of the function where self.<p>, p a one-expression property of the class, is replaced by that expression"""
+    import copy
+    props = {}
+    for name, m_ in ci.methods.items():
+        decs = [canon(d) for d in m_.node.decorator_list]
+        body = [s_ for s_ in m_.node.body if not (isinstance(s_, ast.Expr) and isinstance(s_.value, ast.Constant))]
+        if 'property' in decs and len(body) == 1 and isinstance(body[0], ast.Return) and body[0].value is not None:
+            props[name] = body[0].value
+
+    class T(ast.NodeTransformer):
+        def visit_Attribute(self, n):
+            self.generic_visit(n)
+            if isinstance(n.value, ast.Name) and n.value.id == 'self' and n.attr in props and isinstance(n.ctx, ast.Load):
+                return copy.deepcopy(props[n.attr])
+            return n
+    if not props:
+        return node
+    return ast.fix_missing_locations(T().visit(copy.deepcopy(node)))
+
+
 def check_any(ctx, repo):
     """(h) an unconstrained Any placeholder compares equal to everything (== True, != False), a
     constrained one by regex search; anything_like sets every field of get_fields() to Any()"""
@@ -615,7 +680,7 @@ def check_any(ctx, repo):
             continue
         other = fi.node.args.args[1].arg
         ok = True
-        for p in w.paths(fi.node, cls=an):
+        for p in repo.walker(split_ifexp=True).paths(_expand_properties(an, fi.node), cls=an):
             gt = set(p.guard_texts())
             r = p.ret()
             t = canon(r) if r is not None else None
@@ -636,6 +701,11 @@ def check_any(ctx, repo):
             if 'get_fields()' in canon(lp.iter) and not any(isinstance(x, (ast.If, ast.Break, ast.Continue)) for s_ in lp.body for x in ast.walk(s_)):
                 sets = [c for s_ in lp.body for c in ast.walk(s_) if isinstance(c, ast.Call) and call_name(c) == 'setattr' and len(c.args) == 3 and call_name(c.args[2]) == 'Any' and not c.args[2].args]
                 if sets and isinstance(lp.target, ast.Tuple) and canon(sets[0].args[1]) == canon(lp.target.elts[0]):
+                    okl = True
+                # the name is the first component of the entry, taken by subscript
+                first = [s_ for s_ in lp.body if isinstance(s_, ast.Assign) and len(s_.targets) == 1 and isinstance(s_.targets[0], ast.Name)
+                         and isinstance(lp.target, ast.Name) and canon(s_.value) == '%s[0]' % lp.target.id]
+                if sets and first and lp.body[0] is first[0] and canon(sets[0].args[1]) == first[0].targets[0].id:
                     okl = True
         if okl:
             ctx.holds(rule, al, 'anything_like: setattr(pkt, field_name, Any()) for every get_fields() entry', 'every field is a don\'t-care', al.node.lineno, clause='h')
@@ -752,6 +822,7 @@ def check_bits(ctx, repo):
 
 def check(ctx):
     repo = ctx.repo
+    _REPO[0] = repo
     total = 0
     for cname in ('Int', 'Data', 'Bits'):
         ci = repo.cls(cname)
